@@ -124,16 +124,16 @@ theorem comment_line_ignored {indent comment : Text} (hi : ∀ c ∈ indent, isW
     unfold stripComments
     rw [commentStart_append _ _ _ _ s1.1]
     rcases hc with ⟨r, rfl⟩ | ⟨r, rfl⟩
-    · simp only [commentStart, s1.2.1, s1.2.2.1, show (('#' : Char) == '(') = false from by decide, show (('#' : Char) == '[') = false from by decide,
+    · simp only [commentStart, s1.2.1, s1.2.2.1, s1.2.2.2.2, show (('#' : Char) == '"') = false from by decide, show (('#' : Char) == '(') = false from by decide, show (('#' : Char) == '[') = false from by decide,
         show (('#' : Char) == ')') = false from by decide, show (('#' : Char) == ']') = false from by decide, Bool.false_eq_true, if_false,
-        show (({} : StripSt).round == 0 && ({} : StripSt).square == 0) = true from rfl, if_true, show (('#' : Char) == '#' || ('#' : Char) == '%') = true from by decide]
+        show (({} : StripSt).round == 0 && ({} : StripSt).square == 0) = true from rfl, show ({} : StripSt).inQuotes = false from rfl, if_true, show (('#' : Char) == '#' || ('#' : Char) == '%') = true from by decide]
       rw [List.take_left' (by simp)]
       have e : indent.dropWhile isWs = [] := by simpa using dropWhile_ws_append (rest := []) hi
       unfold trim trimEnd trimStart
       rw [e]; rfl
-    · simp only [commentStart, s1.2.1, s1.2.2.1, show (('%' : Char) == '(') = false from by decide, show (('%' : Char) == '[') = false from by decide,
+    · simp only [commentStart, s1.2.1, s1.2.2.1, s1.2.2.2.2, show (('%' : Char) == '"') = false from by decide, show (('%' : Char) == '(') = false from by decide, show (('%' : Char) == '[') = false from by decide,
         show (('%' : Char) == ')') = false from by decide, show (('%' : Char) == ']') = false from by decide, Bool.false_eq_true, if_false,
-        show (({} : StripSt).round == 0 && ({} : StripSt).square == 0) = true from rfl, if_true, show (('%' : Char) == '#' || ('%' : Char) == '%') = true from by decide]
+        show (({} : StripSt).round == 0 && ({} : StripSt).square == 0) = true from rfl, show ({} : StripSt).inQuotes = false from rfl, if_true, show (('%' : Char) == '#' || ('%' : Char) == '%') = true from by decide]
       rw [List.take_left' (by simp)]
       have e : indent.dropWhile isWs = [] := by simpa using dropWhile_ws_append (rest := []) hi
       unfold trim trimEnd trimStart
